@@ -6,6 +6,11 @@ from ..core import AnalysisError, norm, walk_no_nested
 from . import C10, common
 
 
+def _VE_LIST(src):
+    from .common import list_attr_of
+    return list_attr_of(src, PM, 'Deb822ValueElement')
+
+
 def _OS_FIELDS(src):
     from .common import ordered_set_fields
     return ordered_set_fields(src)
@@ -53,7 +58,7 @@ def r1b_helper(rep, src):
     m = src.mod(PM)
     for cname, build in ((C10.DUP, 'dup'), (C10.NOD, 'nodup')):
         log = []
-        heap = H.Heap(src.mod(PM), field_alias={'_previous_node': 'previous_node'}, extra_modules=[src.mod('_util'), src.mod('_deb822_repro.tokens')],
+        heap = H.Heap(src.mod(PM), field_alias={'_previous_node': 'previous_node', '_parent_element': 'parent_element'}, extra_modules=[src.mod('_util'), src.mod('_deb822_repro.tokens')],
                       opaque_ctors={'Deb822NewlineAfterValueToken', 'Deb822WhitespaceToken'}, hooks={'_strI': lambda it, a, k: H.Key(a[0].lower(), a[0]) if isinstance(a[0], str) else a[0]})
         names = [H.Key('a', 'A'), H.Key('b', 'B'), H.Key('c', 'C')]
         kvs, lines_of = [], {}
@@ -71,7 +76,7 @@ def r1b_helper(rep, src):
                 lines.append(heap.alloc('Deb822ValueLineElement', {'_newline_token': nl, '_parent_element': None, '_comment_element': None, '_continuation_line_token': ct,
                                                                    '_leading_whitespace_token': lw, '_value_tokens': heap.new_list([vt]), '_trailing_whitespace_token': tw},
                                         name='@line_%s%d' % (k.cls, j)))
-            ve = heap.alloc('Deb822ValueElement', {'_value_entry_elements': heap.new_list(lines), '_parent_element': None}, name='@val_%s' % k.cls)
+            ve = heap.alloc('Deb822ValueElement', {_VE_LIST(src): heap.new_list(lines), '_parent_element': None}, name='@val_%s' % k.cls)
             kv = heap.alloc('Deb822KeyValuePairElement', {'field_name': k, 'value_element': ve, '_parent_element': None, 'parent_element': None},
                             name='@kv_%s' % k.cls)
             kvs.append(kv)
@@ -435,8 +440,13 @@ def r4_validate_before_commit(rep, src):
             continue
         refusal_after = (p_.outcome is not None and p_.outcome[0] == 'raise') or any(
             e[0] == 'lines' and any(isinstance(n_, ast.Raise) for n_ in ast.walk(e[2])) for e in p_.events[first_ + 1:])
-        if refusal_after and late is None:
-            late = p_.events[first_]
+        # (a store that the same path undoes before it raises -- the handler of the commit puts back what was taken: the target is
+        # assigned the value that was read from it before the first store, `T = <T as saved>` with the saving local substituted away --
+        # leaves nothing behind)
+        left_behind = [e for i, e in enumerate(p_.events) if doc_store(e) and not (e[2] is not None and norm(e[2]) == e[1]) and not any(
+            e2[0] == 'store' and e2[1] == e[1] and e2[2] is not None and norm(e2[2]) == e[1] for e2 in p_.events[i + 1:])]
+        if refusal_after and left_behind and late is None:
+            late = left_behind[0]
     if late is None:
         rep.ok('C05.R4', f.site, 'a refused value leaves the paragraph as it was', 'no store into the paragraph or its existing field is followed by a refusal (%d paths)' % len(ps))
     else:
@@ -521,6 +531,60 @@ def r4b_reparse_shapes(rep, src):
         else:
             rep.fail('C05.R4', f.site, what, 'the first field of the re-parse is stored although the text is more than that field (%s): a value that ends in blank lines, or that reads '
                      'as further fields or paragraphs, is stored cut off without an error' % out, where=f.where)
+
+
+def r4b_commit_is_atomic(rep, src):
+    """the setters that replace a field take things from the EXISTING element (its comment) for the new one.  The commit --
+    self.set_kvpair_element(key, new) -- still looks at the key and refuses some (a name token of another document in a paragraph with
+    a repeated field): what was taken from the existing element before the commit is put back when the commit raises, or is taken
+    after it.  Otherwise a refused assignment changes the document (the comment lines of the field disappear)."""
+    from .. import normalize
+    n = 0
+    for q in ('Deb822ParagraphElement.set_field_from_raw_string', 'Deb822ParagraphElement.set_field_to_simple_value'):
+        f = src.try_func(PM + ':' + q)
+        if f is None:
+            continue
+        rep.saw_func(f)
+        fnode, _inl = normalize.inline_helpers(f)
+        existing = set()
+        for st in ast.walk(fnode):
+            if isinstance(st, ast.Assign) and len(st.targets) == 1 and isinstance(st.targets[0], ast.Name) and any(
+                    isinstance(c, ast.Call) and isinstance(c.func, ast.Attribute) and norm(c.func.value) == 'self' and c.func.attr in ('get_kvpair_element', '__getitem__', 'get')
+                    for c in ast.walk(st.value)):
+                existing.add(st.targets[0].id)
+        commits = [c for c in ast.walk(fnode) if isinstance(c, ast.Call) and isinstance(c.func, ast.Attribute) and norm(c.func.value) == 'self' and c.func.attr == 'set_kvpair_element']
+        if not commits:
+            continue          # (delegates to the other setter)
+        n += 1
+        takes = [t for st in ast.walk(fnode) if isinstance(st, (ast.Assign, ast.AugAssign, ast.Delete))
+                 for t in (st.targets if isinstance(st, (ast.Assign, ast.Delete)) else [st.target])
+                 if isinstance(t, ast.Attribute) and isinstance(t.value, ast.Name) and t.value.id in existing and t.lineno < min(c.lineno for c in commits)]
+        what = 'what is taken from the existing field before the commit is put back when the commit refuses the key'
+        if not takes:
+            rep.ok('C05.R4', f.site, what, 'nothing is taken from the existing element before the commit')
+            continue
+        bad = None
+        for t in takes:
+            restored = False
+            for tr in ast.walk(fnode):
+                if isinstance(tr, ast.Try) and any(c in list(ast.walk(ast.Module(body=tr.body, type_ignores=[]))) for c in commits):
+                    for h in tr.handlers:
+                        puts = [x for x in ast.walk(ast.Module(body=h.body, type_ignores=[])) if isinstance(x, ast.Attribute) and isinstance(x.ctx, ast.Store) and norm(x) == norm(t)]
+                        raises = any(isinstance(x, ast.Raise) for x in ast.walk(ast.Module(body=h.body, type_ignores=[])))
+                        if puts and raises and (h.type is None or any(nm in norm(h.type) for nm in ('ValueError', 'Exception', 'BaseException'))):
+                            restored = True
+                    if tr.finalbody and any(isinstance(x, ast.Attribute) and isinstance(x.ctx, ast.Store) and norm(x) == norm(t) for x in ast.walk(ast.Module(body=tr.finalbody, type_ignores=[]))):
+                        restored = True
+            if not restored:
+                bad = bad or (t, '`%s` is changed (line %d) before self.set_kvpair_element() has accepted the key, and is not put back when it raises: in a paragraph with a repeated '
+                              'field, p.set_field_to_simple_value(<the name token of another parse>, value) raises ValueError and the comment lines in front of the field are gone '
+                              'from the document' % (norm(t), t.lineno))
+        if bad:
+            rep.fail('C05.R4', f.site, what, bad[1], where='%s:%d' % (f.module.relpath, bad[0].lineno))
+        else:
+            rep.ok('C05.R4', f.site, what, '%s restored in the handler of the commit' % ', '.join(sorted({norm(t) for t in takes})))
+    if n < 1:
+        raise AnalysisError('%s: no setter that commits through self.set_kvpair_element' % PM)
 
 
 def r5_setitem_routing(rep, src):
@@ -646,7 +710,7 @@ def r5_setitem_routing(rep, src):
             heap = H.Heap(src.mod(PM), hooks={'.set_field_to_simple_value': set_simple, '.set_field_from_raw_string': set_raw, '.get_kvpair_element': lambda it, args, kw: it.h.kv,
                                               '.convert_to_text': line_text, '.convert_content_to_text': line_content, '.dump': line_text})
             lines_ = [heap.alloc('Deb822ValueLineElement', {}, name='@old_line%d' % k_) for k_ in range(len(old_lines))]
-            ve_ = heap.alloc('Deb822ValueElement', {'value_lines': heap.new_list(lines_), '_value_entry_elements': heap.new_list(lines_)}, name='@old_value')
+            ve_ = heap.alloc('Deb822ValueElement', {'value_lines': heap.new_list(lines_), _VE_LIST(src): heap.new_list(lines_)}, name='@old_value')
             heap.kv = heap.alloc('Deb822KeyValuePairElement', {'comment_element': None, '_comment_element': None, 'value_element': ve_, '_value_element': ve_}, name='@old_field')
             para = heap.alloc('Paragraph', {'has_duplicate_fields': False}, name='@paragraph')
             me = heap.alloc('Deb822ParagraphToStrWrapperMixin', {
@@ -697,7 +761,7 @@ def r5_setitem_routing(rep, src):
         heap.comment = comment
         # (the old field is complete: its value element with the line after the colon -- a value, nothing, or blanks only)
         line0 = heap.alloc('Deb822ValueLineElement', {}, name='@old_line0')
-        ve_ = heap.alloc('Deb822ValueElement', {'value_lines': heap.new_list([line0]), '_value_entry_elements': heap.new_list([line0])}, name='@old_value')
+        ve_ = heap.alloc('Deb822ValueElement', {'value_lines': heap.new_list([line0]), _VE_LIST(src): heap.new_list([line0])}, name='@old_value')
         heap.kv = heap.alloc('Deb822KeyValuePairElement', {'comment_element': comment, '_comment_element': comment, 'value_element': ve_, '_value_element': ve_}, name='@old_field')
         para = heap.alloc('Paragraph', {'has_duplicate_fields': False}, name='@paragraph')
         me = heap.alloc('Deb822ParagraphToStrWrapperMixin', {
@@ -850,6 +914,7 @@ def check(src, rep, tier):
     rep.guard('C05.R1', r1b_helper, src)
     rep.guard('C05.R3', r3_keys, src)
     rep.guard('C05.R4', r4_validate_before_commit, src)
+    rep.guard('C05.R4', r4b_commit_is_atomic, src)
     rep.guard('C05.R4', r4b_reparse_shapes, src)
     rep.guard('C05.R5', r5_setitem_routing, src)
     rep.guard('C05.R6', r6_delitem_routing, src)
